@@ -77,6 +77,15 @@ strengthened = {
     "C17-i": "the texts 'None' and 'True' as values of text parameters",
     "C18-i": "C18: a request and cancel-all pipelined in one segment (the spawner is cancelled before its first step), followed at some point by flush / gather-and-close without -r",
     "C06-e": "(caught on arrival, lost when later generator changes diluted the accidental trigger, found again by the 3-seed matrix) workers may wait for another pool to be closed (`await aux.until_closed()`), several at a time; the quick tier now runs the complete table of single sweep placements instead of a 2500-case stride",
+    "C02-j": "C02 ('its callbacks fire'): a task that ended by cancellation without its cancel callback (clause C03.cancel_cb_iff) now also counts for C02",
+    "C03-j": "C03: pool_size assignments in the C03 generator (tasks ending while the pool is over-full after a shrink)",
+    "C09-j": "C09: new 'session' family - requests with and without rejection causes (num_concurrent 0 / -1, duplicate names, a function that is no coroutine function, a locked pool) sent as control commands and compared with a twin pool (widened from the agents' reports before this seed was run)",
+    "C12-j": "C12.must_raise also uses what the user code itself knows: an exception raised by a body or callback of a still remembered task has to surface in flush() / gather_and_close() even if the pool swallowed it and the Task ended cleanly",
+    "C14-j": "C14: gather_and_close() without return_exceptions and failing workers in the C14 generator (a close that fails while other workers are still running; stop() afterwards)",
+    "C15-j": "C15: a request that waited for room and never completed in a pool whose size was reassigned is a C15.grow_wakes violation (was only filed under C04 / C05)",
+    "C16-j": "C16 server family: one client may sit in until-closed while the others handshake, ask for help and run property commands; the parked client is released by closing the pool",
+    "C18-j": "C18: pipelined segments of two or three lines drawn from requests, cancel-all, pool-size reads / assignments and probes (one reply per line, session alive)",
+    "C19-j": "C19: is_serving() has to be false right after the stop (with clients still connected), not only once the serving task has completed",
     "C08-e": "C08: pool_size assignments in the C08 generator (while tasks are inside callbacks)",
     "C13-e": "C13: new 'server' family - a session's pending flush plus the program's own flush while the control server is stopped; pool generator: flush calls whose caller gives up (cancelled flush) are modelled",
     "C14-e": "C14: exact oracle for stop()/stop_all() also when tasks cancelled before their first step are around (was lenient there)",
